@@ -98,8 +98,11 @@ class Builder:
                          "lib/foo.cmake", "$ENV{HOME}", '"semi;colon"', "[=[a]b]=]", "TRUE", '"two  blanks   here"',
                          '"tab\there"', "[[a   b]]", '"  lead and trail  "', r'"Hello\nWorld"', r'"col\tsep"', r'"quote \" inside"', r'"back\\slash"'])
 
-    def params(self, uid, kind, lo=0, hi=4):
+    max_params = 4
+
+    def params(self, uid, kind, lo=0, hi=None):
         """-> (written list, expected list)"""
+        hi = self.max_params if hi is None else hi
         # sometimes the very same parameter list as an earlier definition of this kind (shared-state bugs need equal lists)
         if kind in self._last_params and self.rng.random() < self.p_reuse_params:
             w, e = self._last_params[kind]
@@ -482,6 +485,46 @@ class Builder:
         if k == "dangling":
             return self.dangling()
         raise AssertionError(k)
+
+    # ---- scale: shapes whose size, not spelling, is unusual
+    def deep_definitions(self, n, documented_outer=True, cpa_in_outer=True):
+        """n definitions nested inside each other (only the outermost may carry a doccomment); the outermost one calls
+        cmake_parse_arguments AFTER the nested ones have been closed."""
+        inner = None
+        for lvl in range(n - 1, 0, -1):
+            d = self.definition(self.max_depth, force_doc=False)
+            d.body = [inner] if inner is not None else []
+            inner = d
+        outer = self.definition(self.max_depth, force_doc=documented_outer)
+        outer.body = ([inner] if inner is not None else []) + ([self.cpa()] if cpa_in_outer and self.allow_cpa else [])
+        return outer
+
+    def deep_sections(self, n):
+        """a CMakeTest test whose sections are nested n levels deep"""
+        inner = None
+        for lvl in range(n):
+            sec = self.ct_test(self.max_depth, section=True)
+            sec.impl.body = [inner] if inner is not None else []
+            inner = sec
+        t = self.ct_test(self.max_depth)
+        t.impl.body = [inner]
+        return t
+
+    def many_groups(self, n):
+        """a documented generic command with n parenthesised groups (none deeper than 2)"""
+        uid = self.new_uid()
+        args = [f"gN{uid}Z"]
+        for k in range(n):
+            args.append([f"k{k}", ["v", str(k)]] if k % 7 == 0 else [f"k{k}", f"v{k}"])
+        return Item("generic", "register_pairs", args, uid, doc=self.doc(uid, True), written_cmd="register_pairs")
+
+    def long_line_value(self, n):
+        """a documented set() whose single quoted value is n characters long, all on one physical line"""
+        it = self.set_(force_doc=True)
+        val = '"' + ("chunk " * (n // 6 + 1))[:n] + '"'
+        it.args = [it.args[0], val]
+        it.gt["type"], it.gt["default"] = "str", val[1:-1]
+        return it
 
     def items(self, depth, ctx="top", n=None):
         if n is None:
